@@ -244,7 +244,16 @@ def shared_state_fn(env):
 
 
 def class_snapshot(cls):
-    return sorted((k, id(v)) for k, v in vars(cls).items())
+    """Identity of every class attribute, and the content of plain-data ones
+    (a dict or list the user put on the class may be mutated in place)."""
+    out = []
+    for k, v in vars(cls).items():
+        if isinstance(v, (dict, list, set, tuple, str, int, float, bool, type(None))):
+            out.append((k, id(v), canon.short(canon.canon(v))))
+        else:
+            out.append((k, id(v), None))
+    out.sort(key=lambda x: x[0])
+    return out
 
 
 # ------------------------------------------------------------ environment
@@ -541,7 +550,8 @@ def _run_plan(plan, pristine_fp, yatiml_dir, yaml_dir, mount, sched, profile=Fal
     for (uid, name), (cls, snap) in snaps.items():
         now = class_snapshot(cls)
         if now != snap:
-            a, b = dict(snap), dict(now)
+            a = {x[0]: x[1:] for x in snap}
+            b = {x[0]: x[1:] for x in now}
             keys = sorted(set(a) ^ set(b)) or sorted(k for k in a if a[k] != b.get(k))
             violations.append({
                 'oracle': "the user's classes are unchanged by creating and using yatiml functions",
